@@ -12,14 +12,66 @@ class AnchorLost(Exception):
     pass
 
 
+_norm_cache = {}
+
+
+def _match_angle(s, i):
+    """s[i] == '<': index of the matching '>' (ignoring '->')"""
+    depth = 0
+    n = len(s)
+    while i < n:
+        c = s[i]
+        if c == '<':
+            depth += 1
+        elif c == '>' and not (i > 0 and s[i - 1] == '-'):
+            depth -= 1
+            if depth == 0:
+                return i
+        i += 1
+    return -1
+
+
+def _split_for(inner):
+    """split `Trait for Type` at depth 0"""
+    depth = 0
+    i = 0
+    n = len(inner)
+    while i < n:
+        c = inner[i]
+        if c == '<':
+            depth += 1
+        elif c == '>' and not (i > 0 and inner[i - 1] == '-'):
+            depth -= 1
+        elif depth == 0 and inner.startswith(' for ', i):
+            return inner[:i], inner[i + 5:]
+        i += 1
+    return None, inner
+
+
 def norm(path):
-    """strip generic argument lists `::<...>` from a def path (balanced); keep `<T as Trait>` heads"""
+    """canonical def path: generic argument lists `::<...>` stripped; impl blocks written module-independently:
+       `m::<impl Trait for Type>::f` -> `<Type as Trait>::f`,  `m::<impl Type>::f` -> `Type::f`"""
+    r = _norm_cache.get(path)
+    if r is not None:
+        return r
+    orig = path
+    k = path.find('::<impl ')
+    if k >= 0:
+        j = _match_angle(path, k + 2)
+        if j > 0:
+            inner = path[k + 8:j]
+            rest = path[j + 1:]
+            tr, ty = _split_for(inner)
+            if tr is None:
+                path = norm(ty) + rest
+            else:
+                path = '<' + ty + ' as ' + tr + '>' + rest
     out = []
     depth = 0
     i = 0
     n = len(path)
     while i < n:
-        if depth == 0 and path.startswith('::<', i):
+        if depth == 0 and path.startswith('::<', i) and not path.startswith('::<impl ', i):
             depth = 1
             i += 3
             continue
@@ -28,18 +80,16 @@ def norm(path):
             if c == '<':
                 depth += 1
             elif c == '>':
-                # do not count `->` in fn pointer types
-                if i > 0 and path[i - 1] == '-':
-                    pass
-                else:
+                if not (i > 0 and path[i - 1] == '-'):
                     depth -= 1
             i += 1
             continue
         out.append(path[i])
         i += 1
     s = ''.join(out)
-    # lifetimes inside impl heads: <X<'a> as T> -> <X as T>
     s = re.sub(r"<'[a-z_]+>", "", s)
+    s = re.sub(r"<'[a-z_]+, ", "<", s)
+    _norm_cache[orig] = s
     return s
 
 
